@@ -52,7 +52,18 @@ def _reentrant_case(n0, n1, prio0=None):
             "params": {"kinds": {"0": k0}, "reentrant": True}}
 
 
-_REENTRANT = [_reentrant_case(3, 1), _reentrant_case(2, 0), _reentrant_case(1, 2, ["const", 5, 0])]
+# found by the thorough tier on the pinned tree (fixed in /repo): the flush of batch (0,0) is started by a sibling's
+# item.value() while the batch is still in the scheduler's set; its body re-enters the scheduler, which selected and
+# flushed the same batch again
+_REENTRANT_SYNC = {
+    "roots": [[{"op": "yield", "x": "x1", "s": {"list": [
+        {"new": {"item": [0, 0, {"set": 81}]}},
+        {"list": [{"new": {"task": [{"op": "let", "h": "h1", "f": {"item": [0, 0, {"set": 32}]}}, {"op": "sync", "x": "x2", "h": "h1"}]}},
+                  {"new": {"item": [1, 1, {"set": 38}]}}, {"new": {"item": [0, 2, {"set": 17}]}}]}]}}]],
+    "params": {"kinds": {"0": {"nested": [1, 95, {"set": 8}]}}, "reentrant": True},
+}
+
+_REENTRANT = [_reentrant_case(3, 1), _reentrant_case(2, 0), _reentrant_case(1, 2, ["const", 5, 0]), _REENTRANT_SYNC]
 
 
 def _is_reentrant(c):
